@@ -703,6 +703,8 @@ def run(ctx: core.Ctx) -> None:
             ctx.count('transitions', len(job[0]) + len(job[1]))
             ctx.add_to_set('outcomes', outcome)
             for sig, what in viols:
+                if 'utf8' in job[0]:
+                    sig += ':non-ascii'   # (a sequence holding the line with a byte above 0x7f)
                 if len(job) > 3:
                     what += f'  [while an inbound connection from {job[3][0]} is refused, its NOTIFICATION accepted by the socket after {job[3][1]} attempts]'
                 ctx.violation(sig, f'[API v{job[2]}] {what}', {'kind': 'seq', 'seq': list(job[0]), 'cuts': list(job[1]), 'version': job[2], 'inbound': list(job[3]) if len(job) > 3 else None})
@@ -752,6 +754,8 @@ def replay(case):
         return [{'signature': s, 'what': wh} for s, wh in viols]
     if case['kind'] == 'seq':
         viols, o = run_sequence((tuple(case['seq']), tuple(case['cuts']), case['version']) + ((tuple(case['inbound']),) if case.get('inbound') else ()))
+        if 'utf8' in case['seq']:
+            viols = [(s + ':non-ascii', wh) for s, wh in viols]
     else:
         viols, o = run_selector((case['form'], case['prefix'], frozenset(case['expected'])))
     return [{'signature': s, 'what': wh} for s, wh in viols]
